@@ -15,6 +15,7 @@ package c07
 import (
 	"fmt"
 	"runtime"
+	"runtime/debug"
 	"sort"
 	"strconv"
 	"strings"
@@ -39,7 +40,10 @@ type Interp struct {
 }
 
 func New() vh.Interp {
+	// deterministic sync.Pool reuse (EntryOptions, EntryContext, TokenResult are pooled): one P, one OS thread, no GC
 	runtime.GOMAXPROCS(1)
+	runtime.LockOSThread()
+	debug.SetGCPercent(-1)
 	vh.Silence()
 	c := vh.NewClock(1_900_000_000_000)
 	return &Interp{clk: c, live: map[string]*base.SentinelEntry{}}
@@ -137,20 +141,26 @@ func (it *Interp) Step(t []string, op string) string {
 		if _, dup := it.live[t[1]]; dup {
 			return "bad-op"
 		}
-		var tt base.TrafficType
+		// `default` = no WithTrafficType option at all (documented default: Outbound); batch `-` = no WithBatchCount
+		// option (default 1): the options object is pooled, so what an earlier call set must not leak into this one
+		opts := make([]sentinel.EntryOption, 0, 2)
 		switch t[3] {
 		case "in":
-			tt = base.Inbound
+			opts = append(opts, sentinel.WithTrafficType(base.Inbound))
 		case "out":
-			tt = base.Outbound
+			opts = append(opts, sentinel.WithTrafficType(base.Outbound))
+		case "default":
 		default:
 			return "bad-op"
 		}
-		b, err := strconv.ParseUint(t[4], 10, 32)
-		if err != nil {
-			return "bad-op"
+		if t[4] != "-" {
+			b, err := strconv.ParseUint(t[4], 10, 32)
+			if err != nil {
+				return "bad-op"
+			}
+			opts = append(opts, sentinel.WithBatchCount(uint32(b)))
 		}
-		e, blk := sentinel.Entry(t[2], sentinel.WithTrafficType(tt), sentinel.WithBatchCount(uint32(b)))
+		e, blk := sentinel.Entry(t[2], opts...)
 		if blk != nil {
 			if blk.BlockType() == base.BlockTypeSystemFlow {
 				return "block sys"
